@@ -885,3 +885,257 @@ func init() {
 		Doc: "**kwargs receives a dictionary made for the call: the VM call sequence never hands the ** operand itself to the callee (storage-sharing analysis A9, the clause of C13.R1), and every StringDict that EvalCode turns into an object of the callee's frame was allocated by EvalCode — none of its parameters' dictionaries (kws, kwdefs, globals, locals) flows there",
 		Run: runKwargsFresh})
 }
+
+// ---- C04.R8: which slot each argument is copied to ----
+//
+// The binder (vm.EvalCode, ceval.c PyEval_EvalCodeEx) moves values between four sequences: the positional arguments, the
+// defaults, the *args tuple it builds, and the frame's fast locals. Wherever one element assignment copies from one of
+// these sequences to another — A[ia] = B[ib], the right-hand side possibly being the element variable of a range over
+// B[lo:] — the difference ia − ib is a fixed linear form of the signature: an argument goes to the slot of its own
+// index, a surplus argument to position i − n of the *args tuple, default i to slot Argcount − len(defaults) + i.
+// The forms are computed from the code (single-definition locals resolved, conversions stripped, parameters named by
+// position) and compared with the reviewed ones. This decides the offsets, not the loop bounds.
+var binderTransfers = map[string]*lin{
+	"Localsplus <- p5": linConst(0),                                  // fastlocals[i] = args[i]
+	"tuple <- p5":      linSym("n").scale(-1),                        // u[i-n] = args[i]
+	"Localsplus <- p7": linSym("p2.Argcount").sub(linSym("len(p7)")), // fastlocals[m+i] = defs[i], m = Argcount - len(defs)
+}
+
+func runBinderTransfers(c *Ctx, r *Rep) {
+	p := c.MustPkg("vm")
+	info := p.TypesInfo
+	fd0 := c.FuncDecl("vm", "EvalCode")
+	if fd0 == nil {
+		r.undecided("binder|anchor", token.NoPos, "vm.EvalCode not found")
+		return
+	}
+	r.analysed("vm.EvalCode")
+	fd := c.Expand(p, fd0)
+	// parameters by position
+	pname := map[types.Object]string{}
+	k := 0
+	for _, f := range fd0.Type.Params.List {
+		for _, nm := range f.Names {
+			k++
+			pname[info.Defs[nm]] = "p" + itoa(k)
+		}
+	}
+	// definitions of locals
+	defs := map[types.Object][]ast.Expr{}
+	ast.Inspect(fd.Body, func(nd ast.Node) bool {
+		switch x := nd.(type) {
+		case *ast.AssignStmt:
+			for i, l := range x.Lhs {
+				if id := identOf(l); id != nil {
+					var rhs ast.Expr
+					if len(x.Lhs) == len(x.Rhs) && x.Tok != token.ADD_ASSIGN && x.Tok != token.SUB_ASSIGN {
+						rhs = x.Rhs[i]
+					}
+					defs[info.ObjectOf(id)] = append(defs[info.ObjectOf(id)], rhs)
+				}
+			}
+		case *ast.IncDecStmt:
+			if id := identOf(x.X); id != nil {
+				defs[info.ObjectOf(id)] = append(defs[info.ObjectOf(id)], nil, nil)
+			}
+		case *ast.ValueSpec:
+			for i, id := range x.Names {
+				var rhs ast.Expr
+				if i < len(x.Values) {
+					rhs = x.Values[i]
+				}
+				defs[info.ObjectOf(id)] = append(defs[info.ObjectOf(id)], rhs)
+			}
+		}
+		return true
+	})
+	var canonExpr func(e ast.Expr, depth int) string
+	// linear form of an integer expression
+	var L func(e ast.Expr, depth int) *lin
+	L = func(e ast.Expr, depth int) *lin {
+		e = unparen(e)
+		if v, ok := constInt(info, e); ok {
+			return linConst(v)
+		}
+		if depth > 8 {
+			return linSym(exprStr(e))
+		}
+		switch x := e.(type) {
+		case *ast.Ident:
+			obj := info.ObjectOf(x)
+			if nm, ok := pname[obj]; ok {
+				return linSym(nm)
+			}
+			ds := defs[obj]
+			if len(ds) == 1 && ds[0] != nil {
+				return L(ds[0], depth+1)
+			}
+			if x.Name == "n" || len(ds) >= 1 && ds[0] != nil && canonExpr(ds[0], depth+1) == "len(p5)" {
+				return linSym("n") // the number of positional arguments that go to named slots: len(args) capped at Argcount
+			}
+			return linSym(x.Name)
+		case *ast.BinaryExpr:
+			switch x.Op {
+			case token.ADD:
+				return L(x.X, depth+1).add(L(x.Y, depth+1))
+			case token.SUB:
+				return L(x.X, depth+1).sub(L(x.Y, depth+1))
+			}
+		case *ast.CallExpr:
+			if tv, ok := info.Types[x.Fun]; ok && tv.IsType() && len(x.Args) == 1 {
+				return L(x.Args[0], depth+1)
+			}
+		}
+		return linSym(canonExpr(e, depth+1))
+	}
+	canonExpr = func(e ast.Expr, depth int) string {
+		e = unparen(e)
+		switch x := e.(type) {
+		case *ast.Ident:
+			if nm, ok := pname[info.ObjectOf(x)]; ok {
+				return nm
+			}
+			return x.Name
+		case *ast.SelectorExpr:
+			return canonExpr(x.X, depth+1) + "." + x.Sel.Name
+		case *ast.CallExpr:
+			if isBuiltinCall(info, x, "len") && len(x.Args) == 1 {
+				return "len(" + canonExpr(x.Args[0], depth+1) + ")"
+			}
+			if tv, ok := info.Types[x.Fun]; ok && tv.IsType() && len(x.Args) == 1 {
+				return canonExpr(x.Args[0], depth+1)
+			}
+		}
+		return exprStr(e)
+	}
+	// what kind of sequence an expression denotes
+	var kindOf func(e ast.Expr, depth int) string
+	kindOf = func(e ast.Expr, depth int) string {
+		e = unparen(e)
+		if depth > 4 {
+			return ""
+		}
+		switch x := e.(type) {
+		case *ast.Ident:
+			obj := info.ObjectOf(x)
+			if nm, ok := pname[obj]; ok {
+				if nm == "p5" || nm == "p7" {
+					return nm
+				}
+				return ""
+			}
+			ds := defs[obj]
+			if len(ds) == 1 && ds[0] != nil {
+				return kindOf(ds[0], depth+1)
+			}
+		case *ast.SelectorExpr:
+			if x.Sel.Name == "Localsplus" {
+				return "Localsplus"
+			}
+		case *ast.CallExpr:
+			if isBuiltinCall(info, x, "make") && len(x.Args) >= 1 && strings.HasSuffix(exprStr(x.Args[0]), "Tuple") {
+				return "tuple"
+			}
+		}
+		return ""
+	}
+	// range element variables: v of `for k, v := range B[lo:]`
+	type elem struct {
+		base ast.Expr
+		idx  *lin
+	}
+	elems := map[types.Object]elem{}
+	ast.Inspect(fd.Body, func(nd ast.Node) bool {
+		rs, ok := nd.(*ast.RangeStmt)
+		if !ok || rs.Value == nil {
+			return true
+		}
+		vid := identOf(rs.Value)
+		if vid == nil {
+			return true
+		}
+		base := unparen(rs.X)
+		lo := linConst(0)
+		if se, ok := base.(*ast.SliceExpr); ok {
+			base = unparen(se.X)
+			if se.Low != nil {
+				lo = L(se.Low, 0)
+			}
+		}
+		var idx *lin
+		if kid := identOf(rs.Key); kid != nil && kid.Name != "_" {
+			idx = lo.add(linSym(kid.Name))
+		} else {
+			idx = lo.add(linSym("?key"))
+		}
+		elems[info.ObjectOf(vid)] = elem{base, idx}
+		return true
+	})
+	found := map[string]bool{}
+	ast.Inspect(fd.Body, func(nd ast.Node) bool {
+		as, ok := nd.(*ast.AssignStmt)
+		if !ok || len(as.Lhs) != 1 || len(as.Rhs) != 1 {
+			return true
+		}
+		lx, ok := unparen(as.Lhs[0]).(*ast.IndexExpr)
+		if !ok {
+			return true
+		}
+		ak := kindOf(lx.X, 0)
+		if ak == "" {
+			return true
+		}
+		var bk string
+		var ib *lin
+		switch rx := unparen(as.Rhs[0]).(type) {
+		case *ast.IndexExpr:
+			bk = kindOf(rx.X, 0)
+			ib = L(rx.Index, 0)
+		case *ast.Ident:
+			if el, ok := elems[info.ObjectOf(rx)]; ok {
+				bk = kindOf(el.base, 0)
+				ib = el.idx
+			}
+		}
+		if bk == "" || ib == nil || ak == bk {
+			return true
+		}
+		pair := ak + " <- " + bk
+		want, reviewed := binderTransfers[pair]
+		d := L(lx.Index, 0).sub(ib)
+		key := "binder|vm.EvalCode|" + pair
+		found[pair] = true
+		switch {
+		case !reviewed:
+			r.undecided(key, as.Pos(), "EvalCode copies elements %s (slot − source index = %s); no reviewed offset for this pair of sequences", pair, d.String())
+		case d.equal(want):
+			r.ok(key, as.Pos(), "slot − source index = %s", want.String())
+		default:
+			r.bad(key, as.Pos(), "EvalCode copies elements %s with slot − source index = %s where the binding algorithm has %s: an argument or default lands in another parameter's slot (for instance default i belongs in slot Argcount − len(defaults) + i whatever number of positional arguments was given) [ceval.c PyEval_EvalCodeEx]", pair, d.String(), want.String())
+		}
+		return true
+	})
+	for pair := range binderTransfers {
+		if !found[pair] {
+			r.undecided("binder|vm.EvalCode|"+pair, fd0.Pos(), "the element copy %s is no longer visible in EvalCode (moved behind a call the rule does not follow, or rewritten as a bulk copy)", pair)
+		}
+	}
+}
+
+func itoa(n int) string {
+	if n == 0 {
+		return "0"
+	}
+	s := ""
+	for n > 0 {
+		s = string(rune('0'+n%10)) + s
+		n /= 10
+	}
+	return s
+}
+
+func init() {
+	register(&Rule{ID: "C04.R8", Prop: "C04", Floor: 3,
+		Doc: "which slot each argument is copied to: wherever EvalCode copies an element from the positional arguments or the defaults into the fast locals or the *args tuple (A[ia] = B[ib], also through the element variable of a range over B[lo:]), the offset ia − ib — computed as a linear form with single-definition locals resolved and parameters named by position — is the one the binding algorithm fixes (argument i to slot i; surplus argument i to tuple position i − n; default i to slot Argcount − len(defaults) + i); loop bounds and the keyword search are not decided here",
+		Run: runBinderTransfers})
+}
